@@ -328,6 +328,8 @@ def classify(prop, case, mismatch, findings):
                 ns.setdefault(kk, vv)
     ns["mismatch"] = mismatch
     ns["kind"] = mismatch.get("kind")
+    ns.update({"len": len, "max": max, "min": min, "abs": abs, "any": any, "all": all, "isinstance": isinstance,
+               "int": int, "tuple": tuple, "list": list, "sum": sum})
     for f in findings:
         if f.get("status") != "open" or f["property"] != prop:
             continue
